@@ -216,6 +216,10 @@ func TestDrive_C13(t *testing.T) {
 			c.Jitter = 1 + rng.I64n(mag/2+1)
 		case 1:
 			c.JitterFactor = Pick(rng, []float32{0.25, 0.1, 0.5})
+		case 2:
+			// both configured: the duration is the one that is applied, the factor is not stacked on top of it
+			c.Jitter = 1 + rng.I64n(mag/2+1)
+			c.JitterFactor = Pick(rng, []float32{0.25, 0.1, 0.5})
 		}
 		n := 2 + rng.Intn(9)
 		if rng.Chance(35) {
